@@ -40,7 +40,7 @@ Qed.
 
 (** it is within the symmetry tolerance of [a] whenever the predicate accepted [a] *)
 Lemma mirror_lower_close a n :
-  (n * n)%nat = length a -> is_pd_pred RO a = Some true ->
+  (n * n)%nat = length a -> is_positive_definite RO a = Some true ->
   forall i j, (i < n)%nat -> (j < n)%nat ->
     Rabs (getm (mirror_lower a n) n i j - getm a n i j) <= sym_tol (getm a n i j) (getm a n j i).
 Proof.
@@ -83,8 +83,8 @@ Proof.
                           /\ solves a n x b).
   { rewrite Hb, <- Hn, Nat.eqb_refl. cbn [guard bind]. apply solve_lu_correct; auto. }
   unfold slice_solve.
-  pose proof (is_pd_pred_sq a n Hn) as Hpd.
-  destruct (is_symmetric_rel_rows RO (unflatten a n n) n && diag_positive_rows RO (unflatten a n n) n) eqn:E.
+  pose proof (is_positive_definite_sq a n Hn) as Hpd.
+  destruct (is_symmetric_rows RO (unflatten a n n) n && diag_positive_rows RO (unflatten a n n) n) eqn:E.
   - pose proof (try_cholesky_shape RO a) as Hsh. rewrite <- Hn, is_square_sq in Hsh.
     pose proof E as E'. apply andb_true_iff in E'. destruct E' as [Es _]. rewrite Es in Hsh. destruct Hsh as [r Hr].
     destruct r as [l|].
@@ -117,8 +117,8 @@ Theorem factor_backward a n :
   exists f a', slice_factor RO a = Some f /\ close_to a' a n /\ solver_ok a' n f.
 Proof.
   intros Hn Hpos Hpiv. unfold slice_factor.
-  pose proof (is_pd_pred_sq a n Hn) as Hpd.
-  destruct (is_symmetric_rel_rows RO (unflatten a n n) n && diag_positive_rows RO (unflatten a n n) n) eqn:E.
+  pose proof (is_positive_definite_sq a n Hn) as Hpd.
+  destruct (is_symmetric_rows RO (unflatten a n n) n && diag_positive_rows RO (unflatten a n n) n) eqn:E.
   - pose proof (try_cholesky_shape RO a) as Hsh. rewrite <- Hn, is_square_sq in Hsh.
     pose proof E as E'. apply andb_true_iff in E'. destruct E' as [Es _]. rewrite Es in Hsh. destruct Hsh as [r Hr].
     destruct r as [l|].
@@ -183,7 +183,7 @@ Theorem indefinite_not_factored a n :
 Proof.
   intros Hn Hsym [x Hx].
   pose proof (try_cholesky_shape RO a) as Hsh. rewrite <- Hn, is_square_sq in Hsh.
-  rewrite is_symmetric_rel_rows_exact in Hsh.
+  rewrite is_symmetric_rows_exact in Hsh.
   2:{ intros i j Hi Hj. rewrite !ent_unflatten by auto. apply (Hsym i j); auto. }
   destruct Hsh as [r Hr]. destruct r as [l|]; [exfalso|exact Hr].
   pose proof (try_cholesky_psd a l n Hr Hn Hsym x). lra.
@@ -192,7 +192,7 @@ Qed.
 Theorem indefinite_solved_by_lu a b n :
   (n * n)%nat = length a -> length b = n -> symmetric a n ->
   (forall i, (i < n)%nat -> 0 < getm a n i i) -> (exists x, quad a n x < 0) ->
-  is_pd_pred RO a = Some true /\ slice_solve RO a b = solve_via_lu RO a b.
+  is_positive_definite RO a = Some true /\ slice_solve RO a b = solve_via_lu RO a b.
 Proof.
   intros Hn Hb Hsym Hdiag Hind.
   pose proof (pd_pred_sym_posdiag a n Hn Hsym Hdiag) as Hpd. split; [exact Hpd|].
@@ -207,7 +207,7 @@ Definition d1_witness : list R := [1; 2; 2; 1].
 Lemma d1_witness_symmetric : symmetric d1_witness 2.
 Proof. intros i j Hi Hj. destruct i as [|[|i]], j as [|[|j]]; try lia; reflexivity. Qed.
 
-Lemma d1_witness_pd_pred : is_pd_pred RO d1_witness = Some true.
+Lemma d1_witness_pd_pred : is_positive_definite RO d1_witness = Some true.
 Proof.
   apply (pd_pred_sym_posdiag d1_witness 2); [reflexivity | exact d1_witness_symmetric |].
   intros i Hi. destruct i as [|[|i]]; try lia; unfold getm, d1_witness; cbn [nth Nat.mul Nat.add]; lra.
@@ -217,7 +217,7 @@ Lemma d1_witness_not_pd : try_cholesky RO d1_witness = Some None.
 Proof.
   pose proof (try_cholesky_shape RO d1_witness) as Hsh.
   change (is_square (length d1_witness)) with (Some 2%nat) in Hsh. cbv iota beta in Hsh.
-  rewrite is_symmetric_rel_rows_exact in Hsh.
+  rewrite is_symmetric_rows_exact in Hsh.
   2:{ intros i j Hi Hj. rewrite !ent_unflatten by auto. apply (d1_witness_symmetric i j); auto. }
   destruct Hsh as [r Hr]. destruct r as [l|]; [exfalso|exact Hr].
   destruct (try_cholesky_reconstructs d1_witness l 2 Hr eq_refl d1_witness_symmetric) as (_ & Hlow & Hpos & Hrec).
